@@ -1647,6 +1647,11 @@ func (this *Reader) processBlock() (int64, error) {
 		return 0, nil
 	}
 
+	// All the previously decoded bytes have been consumed. Reset the cursor now:
+	// when a task fails, the blocks decoded before it are still handed out and
+	// must be read from the start of the block buffers.
+	this.consumed = 0
+
 	blkSize := this.blockSize
 
 	// Add a padding area to manage any block temporarily expanded
